@@ -58,7 +58,7 @@ def build():
                      'all 2^(n-1) segmentations of line and pickle streams up to 13 bytes (quick) / 20 bytes (thorough), <= 3 datapoints, incl. a 2-byte UTF-8 character and the 4-byte length prefix; longer streams: every 1- and 2-cut segmentation',
                      "stream re-assembly is implemented in Twisted, not in /repo: this validates the assumed contract A-TWISTED-FRAMING"),
              Bounded('C01/native/listeners_cross_check', 'replay/receivers_native.py', ['--what', 'c01', '--n', '500'], ['--what', 'c01', '--n', '30000'],
-                     "500 (quick) / 30000 (thorough) seeded random sequences of 1..6 well-formed datapoints (names over printable ASCII and one character per UTF-8 lead byte C2..F4, values incl. +-inf / integers / 2**53, integer and fractional timestamps) x random batching x random segmentation (single segment, fixed 1..6-byte chunks, random cut sets) through the real plaintext TCP, UDP and pickle (protocols 0-4) listeners on a StringTransport: delivered exactly once, in order, unchanged",
+                     "500 (quick) / 30000 (thorough) seeded random sequences of 1..6 well-formed datapoints (names over printable ASCII and one character per UTF-8 lead byte C2..F4, values incl. +-inf / integers / 2**53, integer and fractional timestamps) x random batching x random segmentation x (half of the runs) a flow-control pause raised while a random datapoint is handled, the transport being resumed before the next read and at the end (single segment, fixed 1..6-byte chunks, random cut sets) through the real plaintext TCP, UDP and pickle (protocols 0-4) listeners on a StringTransport: delivered exactly once, in order, unchanged",
                      "end-to-end cross-check of the discharged per-handler contracts together with Twisted's framing and CPython's str/float/pickle on real bytes (A-STR, A-PICKLE are assumptions of the proof)")],
     trusted_base=['A-ENGINE', 'A-SMT', 'A-STR', 'A-PICKLE', 'A-TWISTED-FRAMING'],
     assumptions=[
